@@ -77,7 +77,10 @@ pub fn gen_setup_band(r: &mut Rng, profile: Profile, max_k: u32, band: Option<u3
     let xl = band_lo.is_some();
     let k_target = if let Some(lo) = band_lo {
         let special = crate::rank::boundary_ks(lo, max_k);
-        if !special.is_empty() && r.chance(1, 4) {
+        if max_k == 56403 && r.chance(1, 4) {
+            // the largest block the code supports, or one of the last sizes below it
+            56403 - *r.pick(&[0u32, 0, 0, 1, 19, 20, 559, 560])
+        } else if !special.is_empty() && r.chance(1, 4) {
             // a block size whose P, W or L is a multiple of 64
             *r.pick(&special)
         } else {
